@@ -11,7 +11,7 @@ CaseResult md_case(const RunCtx &ctx, TapeReader &t, unsigned size_hint) {
     constexpr unsigned field_bits = std::numeric_limits<T>::digits / D;
     const uint64_t cmax = (uint64_t(1) << (field_bits - 1)) - 1;
     size_t n = 1 + t.below(size_hint < 30 ? 8 : 400);
-    size_t at = t.below(n);
+    size_t at = pick_pos(t, n);
     size_t dim = t.below(D);
     // too wide: bit width >= FieldBits, from just too wide up to the whole type
     unsigned extra = (unsigned) t.below(std::numeric_limits<T>::digits - (field_bits - 1));
@@ -39,7 +39,7 @@ CaseResult md_case(const RunCtx &ctx, TapeReader &t, unsigned size_hint) {
     res.label("coordinate_too_wide");
     if (th == Thrown::Nothing) res.fail("a coordinate of bit width " + std::to_string(64 - __builtin_clzll(bad)) + " (FieldBits " + std::to_string(field_bits) + ") at point " +
                                         std::to_string(at) + " dimension " + std::to_string(dim) + " was accepted");
-    res.nontrivial = n >= 3 && at > 0 && at + 1 < n;
+    res.nontrivial = n >= 3;
     return res;
 }
 
